@@ -2204,7 +2204,7 @@ class Cluster(shapes.Shape):
 
             polygon_edges = patches.Polygon(
                 shapes.from_complex_array_to_real_matrix(self.vertices),
-                True,
+                closed=True,
                 facecolor='none',  # No face
                 alpha=1,
                 linewidth=2)
